@@ -1,9 +1,15 @@
 HOOK_COMMITS = []
 ENGINES = [
-    {"name": "kernel", "path": "mc/kernel.py", "serves_properties": ["C01", "C02", "C03", "C04", "C05", "C09", "C13", "C15", "C16", "C17", "C18", "C19"], "kind_free_text": "hand-written bounded exhaustive explorer: units enumerate a finite space (alphabet x bound), sharded over a fork pool; recorder counts evaluations/distinct cases/states/transitions/witnesses; replay files; known-findings triage"},
+    {"name": "kernel", "path": "mc/kernel.py", "serves_properties": ["C01", "C02", "C20", "C03", "C04", "C05", "C09", "C13", "C15", "C16", "C17", "C18", "C19"], "kind_free_text": "hand-written bounded exhaustive explorer: units enumerate a finite space (alphabet x bound), sharded over a fork pool; recorder counts evaluations/distinct cases/states/transitions/witnesses; replay files; known-findings triage"},
 ]
 NOT_YET = {}
 CHECKS = {
+    "C20": {
+        "level": "fault_enumeration",
+        "technique": "exhaustive fault enumeration: every truncation length, every header/directory byte x replacement value, every table x damage pattern, every attribute site x canary, every table compile failure point during save",
+        "text": "Every prefix length of every small corpus font (boundary lengths of large ones) and every header/directory byte times five replacement values must open or fail with TTLibError and never return different table bytes; every table of every small font truncated to every length / bit-flipped with ignoreDecompileErrors must fall back to raw bytes that re-save unchanged; every (table, element, attribute) site of the corpus TTX files and every value position of fea/designspace/glif/plist/CFF blend gets each code-execution canary under an audit hook; path-direction probes for varLib.main, ttx -s/-g/-z, UFO contents; every table compile made to fail during save onto an existing file (str, PathLike, file object; sfnt/woff/woff2/TTC).",
+        "note": "Trusted: sys.addaudithook monitor, oracles/c20_container.py (struct/zlib only). Decoders that loop for more than 4 CPU-s on a damaged count are counted as undecided. Save-after-fallback failures are recorded known findings (six call sites).",
+    },
     "C02": {
         "level": "exploration",
         "technique": "exhaustive enumeration of table contents from run/shape grammars over boundary alphabets taken from the encoders' branch constants; compile -> decompile equality plus independent struct-only readers and HarfBuzz on the compiled bytes",
